@@ -248,10 +248,12 @@ func (c *CEnv) eval(e *Expr) *CVal {
 		if b.T.S != SIface {
 			c.err("type assertion on non-interface: %s", e.Src)
 		}
+		boxTypes[V.typeName(typ)] = typ
 		return &CVal{T: Unbox(V.typeName(typ), V.sortOf(typ), b.T), Typ: typ}
 	case "is":
 		b := c.eval(e.Args[0])
 		typ := c.resolveType(e.Type)
+		boxTypes[V.typeName(typ)] = typ
 		return &CVal{T: IsBox(V.typeName(typ), b.T)}
 	case "call":
 		return c.call(e)
